@@ -136,7 +136,8 @@ func loadRegions(
 	f func(region *RegionInfo) []*RegionInfo,
 ) error {
 	nextID := uint64(0)
-	endKey := regionPath(math.MaxUint64)
+	// The range end is exclusive: "\x00" makes the region with id MaxUint64 part of the range.
+	endKey := regionPath(math.MaxUint64) + "\x00"
 
 	// Since the region key may be very long, using a larger rangeLimit will cause
 	// the message packet to exceed the grpc message size limit (4MB). Here we use
@@ -170,7 +171,8 @@ func loadRegions(
 			}
 		}
 
-		if len(res) < rangeLimit {
+		// nextID == 0 after a non-empty page: the last id was MaxUint64, nothing can follow.
+		if len(res) < rangeLimit || (len(res) > 0 && nextID == 0) {
 			return nil
 		}
 	}
